@@ -166,6 +166,23 @@ func doRuns(e *Engine, job *Job, out *WorkerOut, start time.Time) {
 				return
 			}
 			out.Stats["violating_runs"]++
+			if len(res.RaceSigs) > 1 {
+				// one entry per distinct race report of the run (same tape)
+				for _, sg := range res.RaceSigs[1:] {
+					if seenSig[sg] || len(out.Violations) >= job.MaxViol {
+						continue
+					}
+					seenSig[sg] = true
+					v2 := *res.Viol
+					v2.Sig = sg
+					r2 := *res
+					r2.Viol = &v2
+					j2 := *job
+					j2.Opt = opt
+					rf := writeReplay(&j2, e, seed, &r2, len(res.Tape), fmt.Sprintf("tmp-w%d-%d-", job.Worker, out.Runs))
+					out.Violations = append(out.Violations, ViolOut{Violation: &v2, Seed: seed, Replay: rf, TapeLen: len(res.Tape), OrigLen: len(res.Tape)})
+				}
+			}
 			if seenSig[res.Viol.Sig] || len(out.Violations) >= job.MaxViol {
 				return
 			}
@@ -217,6 +234,20 @@ func doShrink(e *Engine, job *Job, out *WorkerOut) {
 	job.Opt = rf.Opt
 	orig := execute(e, rf.Property, rf.Tier, rf.Seed, NewReplayTape(rf.Tape), rf.Opt)
 	out.Runs = 1
+	if rf.Violation != nil && rf.Violation.Class == "data-race" {
+		// which of several races is reported first varies; the tape is kept as found (no shrinking) if the
+		// recorded race is among the reports of the re-execution
+		if orig.Viol != nil && (orig.Viol.Sig == rf.Violation.Sig || containsStr(orig.RaceSigs, rf.Violation.Sig)) {
+			v2 := *orig.Viol
+			v2.Sig = rf.Violation.Sig
+			orig.Viol = &v2
+			p := writeReplay(job, e, rf.Seed, orig, rf.OrigLen, "")
+			out.Violations = append(out.Violations, ViolOut{Violation: orig.Viol, Seed: rf.Seed, Replay: p, TapeLen: len(orig.Tape), OrigLen: rf.OrigLen})
+			return
+		}
+		out.Replay = map[string]any{"same_sig": false, "note": "race did not recur when re-executed", "trace": orig.Trace}
+		return
+	}
 	if orig.Viol == nil || rf.Violation == nil || orig.Viol.Sig != rf.Violation.Sig {
 		out.Replay = map[string]any{"same_sig": false, "note": "violation did not recur when re-executed before shrinking", "trace": orig.Trace}
 		return
@@ -259,7 +290,7 @@ func doReplay(e *Engine, job *Job, out *WorkerOut) {
 	}
 	if res.Viol != nil {
 		rep["violation"] = res.Viol
-		rep["same_sig"] = rf.Violation != nil && res.Viol.Sig == rf.Violation.Sig
+		rep["same_sig"] = rf.Violation != nil && (res.Viol.Sig == rf.Violation.Sig || containsStr(res.RaceSigs, rf.Violation.Sig))
 	} else {
 		rep["same_sig"] = false
 	}
@@ -346,6 +377,15 @@ func tapeLess(a, b []uint32) bool {
 		}
 		if a[i] != b[i] {
 			return a[i] < b[i]
+		}
+	}
+	return false
+}
+
+func containsStr(l []string, s string) bool {
+	for _, x := range l {
+		if x == s {
+			return true
 		}
 	}
 	return false
